@@ -53,7 +53,7 @@ CHECKS["C05"] = {
             "breadth_first_search (FIFO work list: oldest node first, rest then children in order) are proved from source; "
             "collection_config builds the limits from the action's own config.",
     "note": "breadth-first order = FIFO work list + children one level below their parent, composed by an argument in "
-            "DESIGN.md (not a mechanised lemma); watch processors still use default limits (not claimed); the wall-clock "
+            "DESIGN.md (not a mechanised lemma); the limits are in effect the built-in defaults (arguments naming them are never copied into the action's configuration); the wall-clock "
             "budget is floating point and not decided; list element typing is declared.",
 }
 CHECKS["C06"] = {
